@@ -322,6 +322,7 @@ type vsrvSession struct {
 	streams       map[uint32]*vsrvStream
 	order         []uint32
 	pings         [][8]byte
+	srvPings      [][8]byte // data of the PINGs the server itself sent (keep-alive)
 	pingAcks      int
 	lastPingAck   [8]byte
 	srvFrames     int64
@@ -639,6 +640,7 @@ func (s *vsrvSession) cliRST(stream, code uint32) {
 	s.cliWrite(h2ref.AppendRSTStream(nil, stream, code))
 }
 func (s *vsrvSession) cliPing(data [8]byte) { s.cliWrite(h2ref.AppendPing(nil, false, data)) }
+func (s *vsrvSession) cliPingAck(data [8]byte) { s.cliWrite(h2ref.AppendPing(nil, true, data)) }
 func (s *vsrvSession) cliData(stream uint32, end bool, data []byte) {
 	s.cliWrite(h2ref.AppendData(nil, stream, end, data, -1))
 }
@@ -979,7 +981,9 @@ func (s *vsrvSession) onServerFrame(f h2ref.Frame) {
 		s.tr("S> SETTINGS %v", ss)
 	case h2ref.TypePing:
 		if !f.Has(h2ref.FlagAck) {
-			s.tr("S> PING")
+			d, _ := f.Ping()
+			s.srvPings = append(s.srvPings, d)
+			s.tr("S> PING %x", d)
 			break
 		}
 		d, _ := f.Ping()
